@@ -43,7 +43,7 @@ fn unit_key_cbor(variant: &str) -> Option<(Cbor, UKey)> {
 }
 
 /// CBOR of a compound written by hand from the registry ids (data.toml).
-fn compound_cbor(entries: &[(String, i32, i32)]) -> Option<(Cbor, Mirror)> {
+pub fn compound_cbor(entries: &[(String, i32, i32)]) -> Option<(Cbor, Mirror)> {
     let mut names = BTreeMap::new();
     let mut mir = Mirror::new();
     for (variant, power, prefix) in entries {
@@ -224,6 +224,13 @@ fn rational_case() -> impl Strategy<Value = Case> {
             Case::Rational { numer: n.to_string(), denom: d.to_string() }
         }),
         1 => Just(Case::Rational { numer: "0".into(), denom: "1".into() }),
+        // whole numbers of every size (denominator one), incl. 2^k and 2^k +- 1
+        3 => bigint(256).prop_map(|n| Case::Rational { numer: n.to_string(), denom: "1".into() }),
+        2 => (0u32..300, -1i32..=1, any::<bool>()).prop_map(|(k, d, neg)| {
+            let n = (BigInt::from(1) << k as usize) + BigInt::from(d);
+            Case::Rational { numer: (if neg { -n } else { n }).to_string(), denom: "1".into() }
+        }),
+        1 => (1u32..60, 0u32..40).prop_map(|(a, e)| Case::Rational { numer: format!("{}{}", a, "0".repeat(e as usize)), denom: "1".into() }),
         1 => (-1000i64..1000, 1i64..1000).prop_map(|(n, d)| Case::Rational { numer: n.to_string(), denom: d.to_string() }),
     ]
 }
